@@ -15,6 +15,15 @@ from .model import RefState
 
 def build_instance(inst):
     """Fresh JobShopInstance from an instance case."""
+    return instance_from_jobs(inst, build_jobs(inst))
+
+
+def instance_from_jobs(inst, jobs):
+    return JobShopInstance(jobs, name=inst.get("name", "I"), **inst.get("meta", {}))
+
+
+def build_jobs(inst):
+    """The list of lists of fresh Operation objects of an instance case."""
     jobs = []
     for drow, mrow in zip(inst["durations"], inst["machines"]):
         job = []
@@ -24,7 +33,7 @@ def build_instance(inst):
             else:
                 job.append(Operation(list(ms), d))
         jobs.append(job)
-    return JobShopInstance(jobs, name=inst.get("name", "I"), **inst.get("meta", {}))
+    return jobs
 
 
 def build_filter(names):
